@@ -253,6 +253,12 @@ FIXED_POLICIES = [
     {"https_only": "off", "redirects": "on", "rebind": "on", "allow": ["::ffff:1.1.1.1/128"], "deny": ["::ffff:1.1.1.0/120"]},   # 12
     {"https_only": "off", "redirects": "on", "rebind": "on", "allow": [], "deny": ["::ffff:0.0.0.0/96"]},           # 13: every IPv4 address
 ]
+# a domain and its wildcard in one list, both orders (rules are matched as written: neither spelling may swallow the other)
+FIXED_POLICIES += [
+    {"https_only": "off", "redirects": "on", "rebind": "off", "allow": [], "deny": ["blocked.example", "*.blocked.example"]},      # 14
+    {"https_only": "off", "redirects": "on", "rebind": "off", "allow": [], "deny": ["*.blocked.example", "blocked.example"]},      # 15
+    {"https_only": "off", "redirects": "on", "rebind": "off", "allow": ["*.blocked.example", "blocked.example", "BLOCKED.example"], "deny": []},   # 16
+]
 for _ho in ("on", "off"):
     for _rd in ("on", "off"):
         for _rb in ("on", "off"):
@@ -367,6 +373,19 @@ def rule_spec_match(rule, host, addrs):
         if (d[1] >> (ln - bits)) == (addr >> (ln - bits)):
             return True, mapped
     return False, False
+
+
+SIMPLE_HOST_TEXT = re.compile(r"^(\*\.)?[a-z][a-z0-9-]*(\.[a-z][a-z0-9-]*)+$")
+
+
+def text_rule_matches(t, host):
+    """the rule AS WRITTEN in the configuration (only plain lower-case domain texts are judged here), independent of what compile made of it"""
+    if not SIMPLE_HOST_TEXT.match(t):
+        return None
+    if t.startswith("*."):
+        d = t[2:]
+        return host != d and host.endswith("." + d)
+    return host == t
 
 
 def coq_bytes_of(s):
@@ -503,6 +522,12 @@ def main(ctx, replay):
         {"policy": 13, "chain": ["http://a.example/x", "http://b.example/y"], "codes": [307],
          "dns": {"a.example": [{"err": False, "ips": ["20010db8000000000000000000000001"]}], "b.example": [{"err": False, "ips": ["08080808"]}]}, "mode": "deliver"},
     ]
+    dns_b = {"blocked.example": [{"err": False, "ips": ["08080808"]}], "api.blocked.example": [{"err": False, "ips": ["08080809"]}],
+             "a.b.blocked.example": [{"err": False, "ips": ["0808080a"]}], "notblocked.example": [{"err": False, "ips": ["0808080b"]}]}
+    for _pi in (14, 15, 16):
+        for _u in ("http://blocked.example/x", "http://api.blocked.example/x", "http://a.b.blocked.example:8443/x", "http://API.Blocked.Example./x", "http://notblocked.example/x"):
+            corpus.append({"policy": _pi, "chain": [_u], "codes": [], "dns": dns_b, "mode": "deliver"})
+        corpus.append({"policy": _pi, "chain": ["http://notblocked.example/x", "http://api.blocked.example/y"], "codes": [307], "dns": dns_b, "mode": "deliver"})
     # one real PushDispatcher run per case class
     push = [
         {"policy": 1, "chain": ["http://127.0.0.1/x"], "codes": [], "dns": {}, "mode": "push", "_cls": "literal-loopback"},
@@ -651,6 +676,10 @@ def main(ctx, replay):
                     if sc is None or sc:
                         bad("rebind:%s:%s" % (hop_class(i), (sc or ["odd-length"])[0]),
                             "request sent to %r which resolved to %s address %s (hop %d)" % (h["abs"], "/".join(sc or ["odd-length"]), ip_hex(*a), i))
+            for t in pol_in[pi].get("deny") or []:
+                if text_rule_matches(t, host):
+                    bad("deny-ignored-as-written:%s" % hop_class(i), "request sent to %r although the configured deny rule %r matches its host (hop %d); compiled deny rules: %s"
+                        % (h["abs"], t, i, [(r.get("host"), r.get("sub")) for r in p["deny"] if not r["is_cidr"]]))
             for rule in p["deny"]:
                 m, via_mapped = rule_spec_match(rule, host, addrs)
                 if m:
